@@ -145,7 +145,8 @@ def build_system(ctx, shape, assume_nonneg=True, sysname="sys", rt="none"):
                     conf[p] = val
             else:
                 conf = list(pc)
-            sysobj.set_comp_phases(name, conf)
+            # the API resolves rail names as well as component names
+            sysobj.set_comp_phases(nd["rail"] if nd.get("phase_via_rail") else name, conf)
             info[name]["conf"] = conf
     return sysobj, info, durations
 
